@@ -3249,7 +3249,8 @@ lyxp_expr_parse(const struct ly_ctx *ctx, const char *expr_str, size_t expr_len,
                 has_axis = 1;
             }
 
-            if (expr_str[parsed + tok_len] == ':') {
+            if ((expr_str[parsed] != '*') && (expr_str[parsed + tok_len] == ':')) {
+                /* prefix, '*' cannot be one */
                 ++tok_len;
                 if (expr_str[parsed + tok_len] == '*') {
                     ++tok_len;
